@@ -30,6 +30,9 @@ pub fn exec_oracle(kind: &str, fields: &[&str]) -> String {
         "S_C08D" => oracle_c08d(fields),
         "S_C09" => oracle_c09(fields),
         "S_C13" => oracle_c13(fields),
+        "S_C10" => oracle_c10(fields),
+        "S_C10P" => oracle_c10p(fields),
+        "S_C10W" => oracle_c10w(fields),
         "S_C09E" => oracle_c09e(fields),
         "S_C09N" => oracle_c09n(fields),
         "S_C15" => oracle_c15(fields[0], &crate::exec::unhex(fields[1]), fields[2]),
@@ -2281,4 +2284,144 @@ fn oracle_c13(fields: &[&str]) -> String {
         }
     }
     "oracle pass".to_string()
+}
+
+fn run_kind(kind: &str, def: &str, fwd: bool, data: &[Coor4D]) -> Result<(usize, Vec<Coor4D>), String> {
+    let spec = crate::exec::CtxSpec { kind: kind.to_string(), resources: vec![], users: vec![] };
+    crate::exec::with_ctx(&spec, |ctx| {
+        let op = ctx.op(def).map_err(|e| format!("{def} not instantiable ({})", err_class(&e)))?;
+        let mut d = data.to_vec();
+        let n = ctx.apply(op, if fwd { Fwd } else { Inv }, &mut d).map_err(|e| format!("{def} apply failed ({})", err_class(&e)))?;
+        Ok((n, d))
+    })
+}
+
+/// honest counts, NaN for failed tuples, untouched axes, NaN propagation — tuple by tuple
+fn oracle_c10(fields: &[&str]) -> String {
+    let kind = fields[0];
+    let def = unescape(fields[1]);
+    let fwd = fields[2] == "F";
+    let worked: Vec<usize> = fields[3].chars().filter_map(|c| c.to_digit(10)).map(|d| d as usize).collect();
+    let kept: Vec<usize> = fields[4].chars().filter_map(|c| c.to_digit(10)).map(|d| d as usize).collect();
+    let pts = parse_data(fields[5]);
+    let classes: Vec<char> = fields[6].chars().collect();
+    macro_rules! tryrun {
+        ($e:expr) => {
+            match $e {
+                Ok(v) => v,
+                Err(m) => return format!("oracle FAIL {m}"),
+            }
+        };
+    }
+    let (nall, all) = tryrun!(run_kind(kind, &def, fwd, &pts));
+    if all.len() != pts.len() || nall > pts.len() {
+        return format!("oracle FAIL {def}: {nall} successes / {} tuples returned for {} tuples", all.len(), pts.len());
+    }
+    let mut sum = 0;
+    for (i, p) in pts.iter().enumerate() {
+        let (n, out) = tryrun!(run_kind(kind, &def, fwd, &[*p]));
+        if n > 1 {
+            return format!("oracle FAIL {def}: {n} successes reported for one tuple");
+        }
+        sum += n;
+        let o = out[0];
+        if !same_bits(&o, &all[i]) {
+            // (a helmert with rates carries state between tuples with equal times only)
+            return format!("oracle FAIL {def}: tuple {i} alone gives ({}, {}, {}, {}), in the set ({}, {}, {}, {})", o[0], o[1], o[2], o[3], all[i][0], all[i][1], all[i][2], all[i][3]);
+        }
+        let clean_in = (0..4).all(|j| p[j].is_finite());
+        let worked_finite = worked.iter().all(|&j| o[j].is_finite());
+        let worked_nan = worked.iter().any(|&j| o[j].is_nan());
+        let dir = if fwd { "forward" } else { "inverse" };
+        if clean_in && n == 0 && worked_finite {
+            return format!("oracle FAIL {def} {dir}: tuple ({}, {}, {}, {}) is not counted but comes back looking valid ({}, {}, {}, {})", p[0], p[1], p[2], p[3], o[0], o[1], o[2], o[3]);
+        }
+        if clean_in && n == 1 && worked_nan {
+            return format!("oracle FAIL {def} {dir}: tuple ({}, {}, {}, {}) is counted as a success but carries NaN", p[0], p[1], p[2], p[3]);
+        }
+        match classes.get(i) {
+            Some('i') if n != 1 || !worked_finite => {
+                return format!("oracle FAIL {def} {dir}: tuple ({}, {}, {}, {}) inside the domain is not transformed and counted (count {n}, result ({}, {}))", p[0], p[1], p[2], p[3], o[0], o[1]);
+            }
+            Some('o') if n != 0 || !worked_nan => {
+                return format!("oracle FAIL {def} {dir}: tuple ({}, {}, {}, {}) outside the domain must be NaN and not counted (count {n}, result ({}, {}, {}))", p[0], p[1], p[2], p[3], o[0], o[1], o[2]);
+            }
+            Some('u') if n != 1 || !same_bits(&o, p) => {
+                return format!("oracle FAIL {def} {dir}: tuple ({}, {}) outside all grids must pass unchanged with the null grid (count {n})", p[0], p[1]);
+            }
+            _ => {}
+        }
+        if n == 1 {
+            for &j in &kept {
+                if o[j].to_bits() != p[j].to_bits() && !(o[j].is_nan() && p[j].is_nan()) {
+                    return format!("oracle FAIL {def} {dir}: element {j} is not worked on but came back changed ({} -> {})", p[j], o[j]);
+                }
+            }
+        }
+        // dependencies, by perturbation of a clean tuple; then NaN in an input element must show in
+        // every output element that depends on it
+        // (with the null grid a NaN position lies outside every grid and passes unchanged, by that rule)
+        if clean_in && n == 1 && classes.get(i) == Some(&'i') && !def.contains("@null") {
+            for j in 0..4 {
+                let mut q = *p;
+                q[j] = if q[j] == 0.0 { 1e-3 } else { q[j] * (1.0 + 1e-4) + 1e-7 };
+                let (nq, oq) = tryrun!(run_kind(kind, &def, fwd, &[q]));
+                if nq != 1 {
+                    continue;
+                }
+                let deps: Vec<usize> = (0..4).filter(|&k| oq[0][k].to_bits() != o[k].to_bits() && oq[0][k].is_finite()).collect();
+                let mut z = *p;
+                z[j] = f64::NAN;
+                let (_, oz) = tryrun!(run_kind(kind, &def, fwd, &[z]));
+                for &k in &deps {
+                    if !oz[0][k].is_nan() {
+                        return format!("oracle FAIL {def} {dir}: output element {k} depends on input element {j}, but with NaN there it comes back as {}", oz[0][k]);
+                    }
+                }
+            }
+        }
+    }
+    if sum != nall {
+        return format!("oracle FAIL {def}: {nall} successes for the set, {sum} for its tuples one by one");
+    }
+    "oracle pass".to_string()
+}
+
+/// a pipeline reports the minimum over its steps
+fn oracle_c10p(fields: &[&str]) -> String {
+    let a = unescape(fields[0]);
+    let b = unescape(fields[1]);
+    let pts = parse_data(fields[2]);
+    for fwd in [true, false] {
+        let (first, second) = if fwd { (&a, &b) } else { (&b, &a) };
+        let Ok((n1, d1)) = run_kind("plain", first, fwd, &pts) else { return "oracle FAIL step not instantiable".to_string() };
+        let Ok((n2, d2)) = run_kind("plain", second, fwd, &d1) else { return "oracle FAIL step not instantiable".to_string() };
+        let Ok((n, d)) = run_kind("plain", &format!("{a} | {b}"), fwd, &pts) else { return "oracle FAIL pipeline not instantiable".to_string() };
+        if n != n1.min(n2) {
+            return format!("oracle FAIL {a} | {b} ({}): the steps count {n1} and {n2}, the pipeline {n}", if fwd { "forward" } else { "inverse" });
+        }
+        if d.iter().zip(d2.iter()).any(|(x, y)| !same_bits(x, y)) {
+            return format!("oracle FAIL {a} | {b}: the pipeline's data differ from the steps applied one after the other");
+        }
+    }
+    "oracle pass".to_string()
+}
+
+/// the unsupported inverse of a one-way operator
+fn oracle_c10w(fields: &[&str]) -> String {
+    let def = unescape(fields[0]);
+    let pts = parse_data(fields[1]);
+    match run_kind("plain", &def, false, &pts) {
+        Ok((n, d)) => {
+            if n != 0 || d.iter().zip(pts.iter()).any(|(x, y)| !same_bits(x, y)) {
+                return format!("oracle FAIL {def}: the unsupported inverse reports {n} successes or changed the data");
+            }
+            // ... also as a step of a pipeline run backwards
+            match run_kind("plain", &format!("noop | {def}"), false, &pts) {
+                Ok((n, d)) if n != 0 || d.iter().zip(pts.iter()).any(|(x, y)| !same_bits(x, y)) => format!("oracle FAIL noop | {def} backwards: {n} successes or changed data"),
+                _ => "oracle pass".to_string(),
+            }
+        }
+        Err(m) => format!("oracle FAIL {m}"),
+    }
 }
